@@ -18,6 +18,7 @@ from .. import q
 from ..cfg import must_facts, canon_fact
 from ..mutate import mutate, remove_stmts, replace_expr, replace_stmt, parse_stmt, parse_expr
 from ..model import AnalysisError
+from ..x_resolve import normalise, expand, resolve, unique_def
 
 TECHNIQUE = "guard-dominance dataflow (must-facts with generated membership facts) + who-may-write/ownership lint + key-provenance (normalisation) lint on the HTTPHeaders class"
 EXPLANATION = (
@@ -254,7 +255,7 @@ def rule_cache_value(ck, methods, all_acc):
             st = pm.get(a.node)
             if not isinstance(st, ast.Assign):
                 raise AnalysisError("C06.cache-value: cache store in %s is not a simple assignment" % fi.qualname)
-            v = st.value
+            v = resolve(fi, st.value)
             n += 1
             ok = False
             why = ""
@@ -267,11 +268,16 @@ def rule_cache_value(ck, methods, all_acc):
             else:
                 # single-value store: the same function stores the one-element list [v] under the same key
                 vt = q.unparse(v)
-                for b in accs:
-                    if b.d == LIST and b.kind == "store" and b.keytext == a.keytext:
-                        st2 = pm.get(b.node)
-                        if isinstance(st2, ast.Assign) and isinstance(st2.value, ast.List) and len(st2.value.elts) == 1 and q.unparse(st2.value.elts[0]) == vt:
-                            ok = True
+                lists = [pm.get(b.node) for b in accs if b.d == LIST and b.kind == "store" and b.keytext == a.keytext]
+                lists = [st2 for st2 in lists if isinstance(st2, ast.Assign)]
+                if not lists:
+                    raise AnalysisError("C06.cache-value: value %s memoised in %s is neither a join of the list nor paired with a list store (unknown idiom)" % (vt, fi.qualname))
+                for st2 in lists:
+                    lv = resolve(fi, st2.value)
+                    if isinstance(lv, ast.List) and len(lv.elts) == 1 and q.unparse(resolve(fi, lv.elts[0])) == vt:
+                        ok = True
+                    elif not isinstance(lv, (ast.List, ast.Name, ast.Attribute, ast.Subscript)):
+                        raise AnalysisError("C06.cache-value: list value %s in %s not recognised" % (q.unparse(lv), fi.qualname))
                 why = "the single value also stored as %s[%s] = [value]" % (LIST, a.keytext)
             ck.ob("C06.cache-value", fi, st, ok, "value memoised in %s[%s] must be %s" % (CACHE, a.keytext, why or "the comma-join of the same key's list"))
     return n
@@ -286,10 +292,13 @@ def rule_normalize(ck, methods, all_acc):
     ck.need(len(rets) >= 1, "_normalize_header has no return value")
     param = [p for p in norm.params()][0]
     for r in rets:
-        cm = [c for c in ast.walk(r.value) if isinstance(c, ast.Call) and isinstance(c.func, ast.Attribute) and c.func.attr in CASE_METHODS]
-        ck.ob("C06.normalize", norm, r, bool(cm) and param in q.names_in(r.value), "_normalize_header returns a case-normalised form of its argument (one of %s applied)" % "/".join(CASE_METHODS))
+        rv = expand(norm, r.value)
+        cm = [c for c in ast.walk(rv) if isinstance(c, ast.Call) and isinstance(c.func, ast.Attribute) and c.func.attr in CASE_METHODS]
+        if cm and param not in q.names_in(rv):
+            raise AnalysisError("C06.normalize: cannot relate the value returned by _normalize_header to its parameter")
+        ck.ob("C06.normalize", norm, r, bool(cm), "_normalize_header returns a case-normalised form of its argument (one of %s applied)" % "/".join(CASE_METHODS))
         # whitespace or other lossy folding would merge distinct names: only case methods, split/join allowed
-        other = [c.func.attr for c in ast.walk(r.value) if isinstance(c, ast.Call) and isinstance(c.func, ast.Attribute) and c.func.attr not in CASE_METHODS + ("split", "join")]
+        other = [c.func.attr for c in ast.walk(rv) if isinstance(c, ast.Call) and isinstance(c.func, ast.Attribute) and c.func.attr not in CASE_METHODS + ("split", "join")]
         if other:
             raise AnalysisError("C06.normalize: unknown string operation(s) %s in _normalize_header" % other)
 
@@ -627,13 +636,15 @@ def run(ck):
     methods = [f for f in ck.repo.direct_methods(HU, CLS) if not any((q.dotted(d) or "").split(".")[-1] == "overload" for d in f.node.decorator_list)]
     ck.need(len(methods) >= 14, "only %d HTTPHeaders methods found" % len(methods))
     ck.need(len({f.qualname for f in methods}) == len(methods), "duplicate method definitions in HTTPHeaders (unknown idiom)")
+    orig_nodes = {id(f.node) for f in methods}
+    methods = [normalise(f) for f in methods]  # aliases of self.<attr> / literal-table loops are looked through
     all_acc = {}
     for fi in methods:
         ck.use(fi)
         all_acc[fi.qualname] = accesses(fi)
     # nested functions inside methods touching the dicts would escape the enumeration
     for fi in ck.repo.methods(HU, CLS):
-        if fi not in methods:
+        if id(fi.node) not in orig_nodes and not any((q.dotted(d) or "").split(".")[-1] == "overload" for d in fi.node.decorator_list):
             for x in q.walk_body(fi.node):
                 if isinstance(x, ast.Attribute) and x.attr in ("_as_list", "_combined_cache"):
                     raise AnalysisError("C06: nested function %s touches %s (unknown idiom)" % (fi.qualname, x.attr))
